@@ -150,6 +150,14 @@ class Emitter:
                 return T('named', BUILTIN_ALIASES[t.name], const=t.const)
             if t.name in STD_ALIASES and not t.args:
                 return self.canon(parse_type(STD_ALIASES[t.name]))
+            lm = getattr(self, 'cur_lambda_map', None)
+            if lm and t.name in lm and lm[t.name] != t.name:
+                t = T('named', lm[t.name], const=t.const)
+            la = getattr(self, 'cur_local_alias', None)
+            if la and not t.args and t.name in la:
+                r = self.canon(parse_type(la[t.name]))
+                if t.const: r = _copyT(r); r.const = True
+                return r
             if t.name in self.ix.aliases and not t.args:
                 r = self.canon(parse_type(self.ix.aliases[t.name]))
                 if t.const:
@@ -166,7 +174,7 @@ class Emitter:
                     suf = [k for k in self.ix.aliases if k.endswith('::' + name)]
                     if len(suf) == 1: return self.canon(parse_type(self.ix.aliases[suf[0]]))
                     if len(set(self.ix.aliases[k] for k in suf)) == 1 and suf: return self.canon(parse_type(self.ix.aliases[suf[0]]))
-                for pre in ('OpenVolumeMesh::', 'OpenVolumeMesh::detail::', 'OpenVolumeMesh::IO::', 'OpenVolumeMesh::IO::detail::'):
+                for pre in ('OpenVolumeMesh::', 'OpenVolumeMesh::detail::', 'OpenVolumeMesh::IO::', 'OpenVolumeMesh::IO::detail::', 'OpenVolumeMesh::Geometry::'):
                     if pre + name in self.known_names() or (pre + name in self.ix.aliases and not t.args):
                         break
                 else:
@@ -442,6 +450,9 @@ class Emitter:
 
     def ret_type_of(self, fn):
         q = fn['type'].get('desugaredQualType') or fn['type']['qualType']
+        if 'decltype' in q or q.startswith('auto '):
+            r = self.ret_type_sugar(fn, q)
+            if r is not None: return r
         depth = 0
         for i, ch in enumerate(q):
             if ch == '<': depth += 1
@@ -449,6 +460,65 @@ class Emitter:
             elif ch == '(' and depth == 0:
                 return self.canon(parse_type(q[:i].strip()))
         self.fail(fn, 'cannot split function type ' + q)
+
+    def ret_type_sugar(self, fn, q):
+        """return type of an instantiated function template whose written type is not desugared in the dump
+        (trailing return types, decltype, enable_if with dependent conditions)"""
+        if '->' in q and q.startswith('auto '):
+            # 'auto (params) [const] -> type': the arrow after the parameter list
+            d = 0; end = None
+            for i, ch in enumerate(q):
+                if ch == '(': d += 1
+                elif ch == ')':
+                    d -= 1
+                    if d == 0: end = i; break
+            if end is None or '->' not in q[end:]: return None
+            txt = q[q.index('->', end) + 2:].strip()
+        else:
+            depth = 0; txt = None
+            for i, ch in enumerate(q):
+                if ch in '<(' and not (ch == '(' and depth == 0): depth += 1
+                elif ch in '>)' and depth > 0: depth -= 1
+                elif ch == '(' and depth == 0: txt = q[:i].strip(); break
+            if txt is None: return None
+        txt = re.sub(r'^typename\s+', '', txt)
+        m = re.match(r'^std::enable_if(_t)?<(.*)>(::type)?$', txt)
+        if m:
+            inner = m.group(2); ad = pd = 0; x = 'void'
+            for i in range(len(inner) - 1, -1, -1):       # last top-level comma, scanning from the right (the condition may contain '>=')
+                ch = inner[i]
+                if ch == ')': pd += 1
+                elif ch == '(': pd -= 1
+                elif pd > 0: continue                      # operators inside a parenthesised expression (->, <, >)
+                elif ch == '>': ad += 1
+                elif ch == '<': ad -= 1
+                elif ch == ')': pd += 1
+                elif ch == '(': pd -= 1
+                elif ch == ',' and ad == 0 and pd == 0: x = inner[i + 1:].strip(); break
+            if 'decltype' not in x:
+                ref = x.endswith('&'); base = x.rstrip('& ').strip()
+                rid = self.ix.parent_rec.get(fn['id']) or self.ix.parent_rec.get(self.ix.first.get(fn['id'], fn['id']))
+                rq = self.ix.qual.get(rid) if rid is not None else None
+                if rq and (rq + '::' + base) in self.ix.aliases: base = self.ix.aliases[rq + '::' + base]
+                t = self.canon(parse_type(base))
+                return T('ref', inner=t) if ref else t
+        # decltype(expression): take the type and value category of the returned expression
+        def find_ret(n):
+            if n.get('kind') == 'ReturnStmt' and n.get('inner'): return n['inner'][0]
+            if n.get('kind') in ('LambdaExpr',): return None
+            for c in n.get('inner', []):
+                r = find_ret(c)
+                if r is not None: return r
+            return None
+        body = [c for c in fn.get('inner', []) if c.get('kind') == 'CompoundStmt']
+        if not body: return None
+        e = find_ret(body[0])
+        if e is None: return T('named', 'void')
+        while e.get('kind') in ('ExprWithCleanups',): e = e['inner'][0]
+        t = self.T_of(e).strip_ref()
+        if t.const: t = _copyT(t); t.const = False
+        if e.get('valueCategory') == 'lvalue' and 'decltype' in txt: return T('ref', inner=t)
+        return t
 
     def params_of(self, fn):
         return [p for p in fn.get('inner', []) if p.get('kind') == 'ParmVarDecl']
@@ -538,6 +608,10 @@ class Emitter:
         self.cur_loc = loc_of(fn)
         kind = fn['kind']
         rid = self.ix.parent_rec.get(fn['id']) or self.ix.parent_rec.get(self.ix.first.get(fn['id'], fn['id']))
+        prev_la = getattr(self, 'cur_local_alias', {})
+        self.cur_local_alias = self.ix.local_alias.get(fn['id'], {})
+        prev_lm = getattr(self, 'cur_lambda_map', {})
+        self.cur_lambda_map = self.ix.lambda_map.get(fn['id'], {})
         proto = self.proto_of(fn, cn, fc)
         self.func_text[cn] = None
         body = []
@@ -565,7 +639,7 @@ class Emitter:
         self.func_text[cn] = (proto, body, fn)
         self.func_info[cn] = dict(qual=self.ix.qual.get(fn['id']), loc=loc_of(fn), loops=fc.loops, sig=fn['type']['qualType'],
                                   may_throw=fc.may_throw, ptr_refs=fc.ptr_refs)
-        self.fc = prev
+        self.fc = prev; self.cur_local_alias = prev_la; self.cur_lambda_map = prev_lm
 
     def proto_of(self, fn, cn, fc=None):
         kind = fn['kind']
@@ -577,9 +651,16 @@ class Emitter:
             rkey = self.ix.qual[rid]
             self_t = self.canon(parse_type(rkey))
             params.append('%s *self' % self.ctype(self_t))
+        seen_names = {}
         for p in self.params_of(fn):
             pt = self.canon(parse_type(p['type'].get('desugaredQualType') or p['type']['qualType']))
             pname = p.get('name') or '__unnamed_%s' % p['id'][-4:]
+            if pname in seen_names:
+                # expanded parameter pack: every element carries the pack's name
+                seen_names[pname] += 1; pname = '%s_%d' % (pname, seen_names[pname])
+                if fc is not None: fc.renames[p['id']] = pname
+            else:
+                seen_names[pname] = 0
             if pt.kind == 'array':
                 params.append('%s *%s' % (self.ctype(pt.inner), pname))
             else:
